@@ -81,6 +81,10 @@ type DCase struct {
 	Routes  [][][2]int `json:"routes,omitempty"` // label set -> keys (route index, group-fingerprint id)
 	Steps   []DStep    `json:"steps,omitempty"`
 	Note    string     `json:"note,omitempty"`
+	// Unrealisable (observed): the implementation orders the updates of one alert upstream of the workers (a parked
+	// worker holds update k and no idle worker receives update k+1), so the script could not be driven further; Steps is
+	// the prefix that was driven, the rest of the run was drained free-running and only its end state is judged.
+	Unrealisable bool `json:"unrealisable,omitempty"`
 }
 
 const tick = 10 * time.Second
@@ -145,6 +149,7 @@ type blockStage struct {
 	mu     sync.Mutex
 	parked []*flushPark
 	off    bool
+	pass   bool // free-running: flushes succeed without parking
 }
 
 func (b *blockStage) Exec(ctx context.Context, _ *slog.Logger, as ...*alert.Alert) (context.Context, []*alert.Alert, error) {
@@ -154,6 +159,10 @@ func (b *blockStage) Exec(ctx context.Context, _ *slog.Logger, as ...*alert.Aler
 	if b.off {
 		b.mu.Unlock()
 		return ctx, nil, errors.New("harness shutting down")
+	}
+	if b.pass {
+		b.mu.Unlock()
+		return ctx, as, nil
 	}
 	p := &flushPark{key: gk, id: id, at: time.Now().UnixNano(), ch: make(chan bool, 1)}
 	b.parked = append(b.parked, p)
@@ -189,6 +198,18 @@ func (b *blockStage) release(p *flushPark, ok bool) {
 	p.ch <- ok
 }
 
+// passThrough lets every parked and future flush succeed without parking (free-running drain).
+func (b *blockStage) passThrough() {
+	b.mu.Lock()
+	b.pass = true
+	ps := b.parked
+	b.parked = nil
+	b.mu.Unlock()
+	for _, p := range ps {
+		p.ch <- true
+	}
+}
+
 func (b *blockStage) releaseAll() {
 	b.mu.Lock()
 	b.off = true
@@ -219,6 +240,7 @@ type runner struct {
 	seenFlush map[*flushPark]bool
 	seenMaint *Parked
 	ticks     int
+	unreal    bool // see DCase.Unrealisable
 }
 
 func lsIdx(a *alert.Alert) int {
@@ -383,7 +405,32 @@ func (r *runner) checkPlaced(ui int, limBefore int, o *DObs) {
 	}
 }
 
+// submit publishes the next update through the real provider and records the published version.
+func (r *runner) submit() {
+	u := &r.c.Updates[r.next]
+	now := time.Now()
+	al := &alert.Alert{Alert: model.Alert{Labels: DLabelSets[u.LS].Clone(), Annotations: model.LabelSet{"v": model.LabelValue(strconv.Itoa(r.next))},
+		StartsAt: now, EndsAt: now.Add(time.Hour)}, UpdatedAt: time.Unix(0, 946684800_000_000_000+int64(r.next+1)*int64(time.Millisecond)), Timeout: true}
+	if u.Resolved {
+		al.StartsAt, al.EndsAt = now.Add(-time.Second), now.Add(-time.Millisecond)
+	}
+	if err := r.rig.Alerts.Put(context.Background(), al); err != nil {
+		r.t.Fatalf("Put: %v", err)
+	}
+	pub, err := r.rig.Alerts.Get(al.Fingerprint())
+	if err != nil {
+		r.t.Fatalf("Get: %v", err)
+	}
+	v := dverOf(pub)
+	u.Pub = &v
+	u.Resolved = !pub.EndsAt.After(now)
+	r.next++
+}
+
 func (r *runner) do(a Act) bool {
+	if r.unreal {
+		return false
+	}
 	switch a.Kind {
 	case "W":
 		w := a.W
@@ -411,25 +458,8 @@ func (r *runner) do(a Act) bool {
 		if r.next >= len(r.c.Updates) {
 			return false
 		}
-		u := &r.c.Updates[r.next]
-		now := time.Now()
-		al := &alert.Alert{Alert: model.Alert{Labels: DLabelSets[u.LS].Clone(), Annotations: model.LabelSet{"v": model.LabelValue(strconv.Itoa(r.next))},
-			StartsAt: now, EndsAt: now.Add(time.Hour)}, UpdatedAt: time.Unix(0, 946684800_000_000_000+int64(r.next+1)*int64(time.Millisecond)), Timeout: true}
-		if u.Resolved {
-			al.StartsAt, al.EndsAt = now.Add(-time.Second), now.Add(-time.Millisecond)
-		}
-		if err := r.rig.Alerts.Put(context.Background(), al); err != nil {
-			r.t.Fatalf("Put: %v", err)
-		}
-		pub, err := r.rig.Alerts.Get(al.Fingerprint())
-		if err != nil {
-			r.t.Fatalf("Get: %v", err)
-		}
-		v := dverOf(pub)
-		u.Pub = &v
-		u.Resolved = !pub.EndsAt.After(now)
-		r.cur[w] = r.next
-		r.next++
+		r.submit()
+		r.cur[w] = r.next - 1
 		synctest.Wait()
 		got := ""
 		for _, k := range r.rig.S.Keys() {
@@ -438,7 +468,11 @@ func (r *runner) do(a Act) bool {
 			}
 		}
 		if got == "" {
-			r.t.Fatalf("no worker received the alert")
+			// No idle worker took the alert while another worker is parked: the implementation orders alerts upstream of
+			// the workers (e.g. fingerprint affinity), so this script cannot be realised. Not a defect by itself: RunCase
+			// releases everything, drains free-running and judges the end state.
+			r.unreal = true
+			return false
 		}
 		r.bind[w], r.bound[got] = got, true
 		r.emit(DStep{Kind: "W", W: w})
@@ -519,11 +553,14 @@ func RunCase(t *testing.T, c *DCase, rnd *vh.Rand) (viol []vh.Violation, tags ma
 
 		if rnd == nil {
 			for _, a := range c.Script {
+				if r.unreal {
+					break
+				}
 				r.do(a)
 			}
 		} else {
 			c.Script = nil
-			for steps := 0; steps < 80; steps++ {
+			for steps := 0; steps < 80 && !r.unreal; steps++ {
 				if r.quiescent() && (r.ticks >= 2 || rnd.Chance(1, 3)) {
 					break
 				}
@@ -548,7 +585,7 @@ func RunCase(t *testing.T, c *DCase, rnd *vh.Rand) (viol []vh.Violation, tags ma
 			}
 		}
 		// drain: let everything finish (these steps are part of the case)
-		for guard := 0; guard < 60 && !r.quiescent(); guard++ {
+		for guard := 0; guard < 60 && !r.quiescent() && !r.unreal; guard++ {
 			acts := r.enabledActs()
 			var a *Act
 			for i := range acts {
@@ -564,12 +601,41 @@ func RunCase(t *testing.T, c *DCase, rnd *vh.Rand) (viol []vh.Violation, tags ma
 				c.Script = append(c.Script, *a)
 			}
 		}
-		if !r.quiescent() {
-			r.violate("harness-did-not-quiesce", "threads still parked at the end of the case")
+		var end *DObs
+		if r.unreal {
+			c.Unrealisable = true
+			r.tags["schedule-not-realisable"]++
+			r.unreal = false // allow observe/scan helpers; no further scripted steps are taken
+			r.rig.S.ReleaseAll()
+			r.stage.passThrough()
+			synctest.Wait()
+			for r.next < len(c.Updates) {
+				r.submit()
+				synctest.Wait()
+			}
+			end = r.observe()
+		} else {
+			if !r.quiescent() {
+				r.violate("harness-did-not-quiesce", "threads still parked at the end of the case")
+			}
+			if len(c.Steps) > 0 {
+				end = c.Steps[len(c.Steps)-1].Obs
+			}
+		}
+		// nothing lost: every published alert has been processed (routeAlert completed) once everything is released; an
+		// alert that was published but never processed is a defect whatever the worker structure
+		published := 0
+		for _, u := range c.Updates {
+			if u.Pub != nil {
+				published++
+			}
+		}
+		if done := r.rig.Processed(); done != uint64(published) {
+			r.violate("insert-lost", fmt.Sprintf("%d alerts were published but %d were processed by the dispatcher after the run drained", published, done))
 		}
 		// final oracle: every firing alert whose last version is firing sits in each of its groups (unless limited)
-		if len(c.Steps) > 0 && c.Steps[len(c.Steps)-1].Obs != nil {
-			o := c.Steps[len(c.Steps)-1].Obs
+		if end != nil {
+			o := end
 			last := map[int]int{}
 			for i, u := range c.Updates {
 				if u.Pub != nil {
@@ -686,6 +752,9 @@ func RunT(t *testing.T, env vh.Env, r *vh.Rand, n int) (coqCases []string, jsonC
 			stats["cases-with:"+k]++
 		}
 		stats["cases"]++
+	}
+	if n > 0 && stats["cases-with:schedule-not-realisable"] == n {
+		stats["hook-driven-tie-not-exercised(no-schedule-realisable-on-this-implementation)"] = 1
 	}
 	return coqCases, jsonCases, violations, stats
 }
